@@ -39,16 +39,19 @@ type World struct {
 
 	NewFn, RunFn, RunFrameFn *ssa.Function
 
-	refs       map[*ssa.Function][]*ssa.Function
-	Reach      map[*ssa.Function]bool // reachable from run-phase entries
-	ReachNew   map[*ssa.Function]bool // reachable from New / package init
-	Undecided  []string
-	HostFuncs  []*ai.Func // function values handed to host libraries during construction
-	paramSyms  map[string]ai.Sym
-	Log        []string
-	ObjByType  map[string][]*ai.Object
-	NObjInit   int // objects with larger IDs were allocated after construction
-	CutFns     map[*ssa.Function]bool
+	refs        map[*ssa.Function][]*ssa.Function
+	Reach       map[*ssa.Function]bool // reachable from run-phase entries
+	ReachNew    map[*ssa.Function]bool // reachable from New / package init
+	Undecided   []string
+	HostFuncs   []*ai.Func // function values handed to host libraries during construction
+	paramSyms   map[string]ai.Sym
+	Log         []string
+	ObjByType   map[string][]*ai.Object
+	NObjInit    int // objects with larger IDs were allocated after construction
+	CutFns      map[*ssa.Function]bool
+	NObjPkgInit int      // objects with IDs up to this were created by package initialisation
+	PkgInitHeap *ai.Heap // heap after package initialisation, before New
+	Config      ai.Value // the symbolic Config passed to New
 }
 
 func (w *World) logf(format string, a ...interface{}) {
@@ -223,6 +226,21 @@ func (w *World) construct() error {
 			}
 		}
 	}
+	// every package-level variable of the repository gets its object before any code runs
+	{
+		var gs []*ssa.Global
+		for _, sp := range w.P.SSAPkgs {
+			for _, m := range sp.Members {
+				if g, ok := m.(*ssa.Global); ok {
+					gs = append(gs, g)
+				}
+			}
+		}
+		sort.Slice(gs, func(i, j int) bool { return gs[i].String() < gs[j].String() })
+		for _, g := range gs {
+			it.GlobalObject(g)
+		}
+	}
 	// package initialisation (main's init calls every dependency's init)
 	var mainInit *ssa.Function
 	if sp := w.P.Pkg(""); sp != nil {
@@ -235,8 +253,12 @@ func (w *World) construct() error {
 	if st == nil {
 		return fmt.Errorf("package initialisation has no returning path (fail closed)")
 	}
+	w.NObjPkgInit = len(it.Objects)
+	w.PkgInitHeap = st.Freeze()
+	st = it.StateOn(w.PkgInitHeap)
 	cfgT := w.NewFn.Params[0].Type()
 	cfg := w.symParam("config", cfgT)
+	w.Config = cfg
 	ret, st2 := it.CallFunction(st, w.NewFn, []ai.Value{cfg}, nil)
 	if st2 == nil {
 		return fmt.Errorf("gameboy.New has no returning path (fail closed)")
@@ -692,8 +714,87 @@ func (w *World) infer() error {
 			break
 		}
 	}
-	for fn := range w.CutFns {
-		delete(it.Intercepts, fn)
+	// Refinement (sound one-shot narrowing): at a step boundary a cell holds its
+	// initial value or a value some store put there during a step that started in
+	// a state covered by the invariant, so Inv may be intersected with
+	// Init ⊔ (all values stored when evaluating every entry from Inv).
+	for pass := 0; pass < 2; pass++ {
+		w.Generic = w.materialise()
+		stored := map[ai.CellKey]ai.Value{}
+		weak := map[ai.CellKey]bool{}
+		keepLocal := func(o *ai.Object) bool { return o.ID > w.NObjInit }
+		it.Hooks = ai.Hooks{
+			Undecided:   func(_ *ai.State, at ssa.Instruction, what string) { undecAll[what+" @ "+w.Pos(at)] = true },
+			UnknownCall: func(st *ai.State, at ssa.Instruction) *ai.State { return st.Rebase(w.Generic, keepLocal) },
+			Store: func(_ *ai.State, _ ssa.Instruction, p *ai.Ptr, keys []ai.CellKey, v ai.Value, strong bool) {
+				for _, k := range keys {
+					if k.Obj > w.NObjInit {
+						continue
+					}
+					if !strong {
+						weak[k] = true
+						continue
+					}
+					if old, ok := stored[k]; ok {
+						stored[k] = w.generalise(it.Join(old, v, nil, nil))
+					} else {
+						stored[k] = w.generalise(v)
+					}
+				}
+			},
+		}
+		for i := range w.Entries {
+			e := &w.Entries[i]
+			if !w.CutFns[e.Fn] {
+				for fn := range w.CutFns {
+					fnc := fn
+					it.Intercepts[fnc] = func(st *ai.State, at ssa.Instruction, args []ai.Value) (ai.Value, *ai.State) {
+						var res ai.Value
+						if fnc.Signature.Results().Len() == 1 {
+							res = ai.TopOf(it, fnc.Signature.Results().At(0).Type(), w.decoderSym())
+						}
+						return res, st.Rebase(w.Generic, keepLocal)
+					}
+				}
+			}
+			w.RunEntry(e, nil)
+			for fn := range w.CutFns {
+				delete(it.Intercepts, fn)
+			}
+		}
+		it.Hooks = ai.Hooks{}
+		narrowed := 0
+		initSt := it.StateOn(w.InitHeap)
+		for key, sv := range stored {
+			if weak[key] {
+				continue
+			}
+			cur, ok := w.Inv[key].(*ai.Int)
+			si, ok2 := sv.(*ai.Int)
+			if !ok || !ok2 {
+				continue
+			}
+			o := it.ObjectByIDFast(key.Obj)
+			lt := ai.LeafTypeAt(o.T, key.Path)
+			if lt == nil {
+				continue
+			}
+			iv, ok3 := w.generalise(initSt.LoadPtr(&ai.Ptr{Obj: o, Path: key.Path, Elem: lt})).(*ai.Int)
+			if !ok3 {
+				continue
+			}
+			cand := ai.StripInt(ai.JoinInt(iv, si, nil, nil))
+			if m := ai.MeetInt(cur, cand); m != nil && !(m.Lo == cur.Lo && m.Hi == cur.Hi && m.KnownZeros() == cur.KnownZeros() && m.KnownOnes() == cur.KnownOnes()) {
+				w.Inv[key] = m
+				narrowed++
+			}
+		}
+		if os.Getenv("GBDEBUG") != "" {
+			fmt.Printf("refinement pass %d: %d cells narrowed\n", pass, narrowed)
+		}
+		if narrowed == 0 {
+			break
+		}
 	}
 	w.Generic = w.materialise()
 	for k := range undecAll {
